@@ -94,6 +94,7 @@ class ZIPModel(Model):
         self.bus = ExtParam(model='PQ', src='bus', indexer=self.pq,
                             info='retrieved bux idx',
                             export=False,
+                            vtype=str,
                             )
 
         self.p0 = ExtService(model='PQ', src='Ppf', indexer=self.pq,
